@@ -37,7 +37,7 @@ func c15Keys() {
 	})
 }
 
-var c15Tokens = []string{"absent", "empty", "garbage", "valid", "valid-rs256", "expired", "other-audience", "multi-audience-incl", "other-key", "alg-none", "hs256-pubkey", "truncated", "tampered-payload", "no-exp", "nbf-future"}
+var c15Tokens = []string{"absent", "empty", "garbage", "valid", "valid-rs256", "expired", "other-audience", "multi-audience-incl", "other-key", "alg-none", "hs256-pubkey", "truncated", "tampered-payload", "no-exp", "nbf-future", "no-audience", "empty-audience-list", "blank-audience", "audience-prefix", "audience-case"}
 
 func c15Token(kind, node string) (tok string, present bool) {
 	c15Keys()
@@ -87,6 +87,16 @@ func c15Token(kind, node string) (tok string, present bool) {
 		pl, _ := json.Marshal(claims(5*time.Minute, node))
 		parts[1] = base64.RawURLEncoding.EncodeToString(pl)
 		return strings.Join(parts, "."), true
+	case "no-audience":
+		return sign(jwt.SigningMethodRS512, claims(5*time.Minute), c15Key), true
+	case "empty-audience-list":
+		return sign(jwt.SigningMethodRS512, jwt.MapClaims{"aud": []string{}, "exp": time.Now().Add(5 * time.Minute).Unix()}, c15Key), true
+	case "blank-audience":
+		return sign(jwt.SigningMethodRS512, claims(5*time.Minute, ""), c15Key), true
+	case "audience-prefix":
+		return sign(jwt.SigningMethodRS512, claims(5*time.Minute, node+"x", node[:len(node)-1]), c15Key), true
+	case "audience-case":
+		return sign(jwt.SigningMethodRS512, claims(5*time.Minute, strings.ToUpper(node)), c15Key), true
 	case "no-exp":
 		return sign(jwt.SigningMethodRS512, claims(0, node), c15Key), true
 	case "nbf-future":
@@ -322,7 +332,7 @@ func init() {
 		ID:        "C15",
 		Level:     "exploration",
 		Technique: "exhaustive enumeration of command x connection kind x work type x token through the real RunControlSession/Workceptor with recording in-process work units; decision compared with the statement",
-		Rule: "5 commands x {unix, tcp, mesh address} x {verifying, non-verifying, remote with/without signing, unknown} x 15 tokens (absent, empty, garbage, valid RS512, valid RS256, expired, other audience, several audiences incl. this node, other key, alg none, HS256 keyed with the public key PEM, truncated, payload swapped under a valid signature, no exp, not-before in the future). " +
+		Rule: "5 commands x {unix, tcp, mesh address} x {verifying, non-verifying, remote with/without signing, unknown} x 20 tokens (absent, empty, garbage, valid RS512, valid RS256, expired, other audience, several audiences incl. this node, other key, alg none, HS256 keyed with the public key PEM, truncated, payload swapped under a valid signature, no exp, not-before in the future, no audience claim, empty audience list, blank audience, audiences that extend / shorten / upper-case the node ID). " +
 			"submit additionally with the signwork field absent, \"true\" or \"false\" (it asks for relayed work to be signed and must not influence whether the submission itself is verified). Every combination is a distinct case; all are non-trivial. Effect = unit created / Cancel or Release reached the unit / unit removed / result stream started.",
 		Assumptions: []string{"a token without exp is left open by the statement (either outcome accepted)", "a submit names the verifying type by its local registration"},
 		Run:         runC15,
